@@ -56,6 +56,19 @@ PROPS = {
                        "allocates nothing then. Hence every tuple and equality of a closed model holds in every model (within the bound) of the rules "
                        "and the assertions. The structural invariants this induction rests on (C04) are re-checked as hypotheses",
     },
+    "C03": {
+        "classes": r"^idem|^step\.exit-state",
+        "lemmas": lambda n: n in ("idem", "step"),
+        "witness": "idem",
+        "selfcomp": True,
+        "explanation": "(a) idempotence, by SAT on the generated code: the state close() leaves behind (loop-head invariant, nothing pending, not dirty -- "
+                       "shown at every `return false`) is such that a further close() returns in its first iteration and changes no table cell, no "
+                       "representative and allocates nothing; (b) history independence, by self-composition: two symbolic public histories over the same "
+                       "elements assert the same k symbolic facts -- the second in a symbolic order, with a duplicate and with close() calls at symbolic "
+                       "positions in between -- and the solver shows that the two closed models have the same elements, equivalence classes and tuples "
+                       "modulo equality (programs without `!`; for programs with `!` history independence rests on (a) + C01 + C02: both results are "
+                       "closed and free)",
+    },
     "C06": {
         "classes": r"^(step|prologue)\.(noalloc|progress|dirty-exact)",
         "lemmas": lambda n: n == "step" or n == "prologue",
@@ -199,6 +212,28 @@ def main():
                        "lemmas": sorted(set(r["lemma"][len("effects."):] for r in rs if r["lemma"].startswith("effects."))),
                        "plans": plans, "timeout": timeout, "budget": 240 if tier == "quick" else 1800,
                        "scratch": scratch, "exe": getattr(harness, "exe", None)})
+    sc_results = []
+    if cfg.get("selfcomp"):
+        import selfcomp as SC
+        plans = [(2, 2, 3)] if tier == "quick" else [(2, 2, 3), (2, 3, 4), (3, 2, 3)]
+        sctasks = []
+        for name, (su, sch) in sorted(schemas.items()):
+            if L.has_defs(su.rules) or not corpus.terminates(name):
+                continue
+            sctasks.append({"program": name, "rs": corpus.programs[name]["rs"], "eql": corpus.programs[name]["eql"], "plans": plans,
+                            "timeout": 200 if tier == "quick" else 1500, "budget": 200 if tier == "quick" else 2400, "scratch": scratch, "exe": getattr(harness, "exe", None)})
+        P.log("self-composition for %d programs, plans %s" % (len(sctasks), plans))
+        import multiprocessing as mp
+        if sctasks:
+            with mp.get_context("fork").Pool(min(12, len(sctasks)), maxtasksperchild=1) as pool:
+                sc_results = pool.map(SC.run_task, sctasks, chunksize=1)
+        for r in sc_results:
+            if r["status"] == "failed":
+                found = r["found"]
+                path = P.save_replay(prop, r["program"] + "_selfcomp", corpus.programs[r["program"]]["eql"], {"history_1": found[0][0], "history_2": found[0][1]}, found[1], found[2])
+                violations.append((r["program"], ["history independence"], path, ({"history_1": found[0][0], "history_2": found[0][1]}, found[1], found[2])))
+            elif r["status"] == "inconclusive":
+                unconfirmed.append((r["program"], ["self-composition"], [r.get("reason", "")[:300]]))
     P.log("witness search for %d programs" % len(wtasks))
     for w in P.run_witness_tasks(wtasks):
         name = w["program"]
@@ -245,6 +280,13 @@ def main():
         "compiler_build_s": round(build_s, 1),
         "kani_unification": kani,
     }
+    if cfg.get("selfcomp"):
+        cov["self_composition"] = {"programs": len(sc_results), "programs_decided": sorted(r["program"] for r in sc_results if r["status"] == "proved"),
+                                   "programs_undecided_within_budget (nothing claimed)": sorted(r["program"] for r in sc_results if r["status"] == "undecided"), "queries": sum(r["queries"] for r in sc_results),
+                                   "plans (U, facts, iterations per close)": sorted(set((p.get("U"), p.get("k"), p.get("K")) for r in sc_results for p in r["plans"] if p.get("result") == "unsat")),
+                                   "per_program": [{"program": r["program"], "status": r["status"], "plans": r["plans"], "wall_s": r.get("wall_s")} for r in sc_results][:40],
+                                   "outside the bound": "histories in which some close() needs more iterations than the plan's bound are excluded (bound event assumed false)"}
+        cov["solver_queries"] += sum(r["queries"] for r in sc_results)
     assumptions = [
         "WBTreeMap/WBTreeSet behave as ordered finite maps (C14, not decided by this family)",
         "PrefixTreeN operations have set semantics with ascending iteration (decided by the C08 check on the real prefix_tree.rs)",
